@@ -314,6 +314,7 @@ func (d *Driver) mergeScenario() Scenario {
 	}
 	scn.Readers = r.Intn(2)
 	scn.CloseLast = r.Intn(3) > 0
+	scn.MergeWindow = r.Intn(3)
 	return scn
 }
 
@@ -321,6 +322,7 @@ func (d *Driver) faultRuns(runs int) {
 	for i := 0; i < runs; {
 		scn := d.randomScenario("faults", 2, 3, true)
 		scn.Second = false
+		scn.Opts.Unsafe = d.Rng.Intn(2) == 0
 		scn.Opts.Merge = []string{"eager2", "none", "default"}[d.Rng.Intn(3)]
 		for ci := range scn.Clients {
 			for bi := range scn.Clients[ci] {
@@ -342,7 +344,7 @@ func (d *Driver) faultRuns(runs int) {
 		// every placement would be nops*3 runs; take a seeded sample per scenario
 		for k := 0; k < 6 && i < runs && nops > 2; k++ {
 			f := ctl.Fault{Op: 2 + d.Rng.Intn(nops-2), Stage: []string{"before", "partial", "after"}[d.Rng.Intn(3)]}
-			if d.Rng.Intn(4) == 0 {
+			if d.Rng.Intn(3) == 0 {
 				f.Sticky = 1 + d.Rng.Intn(2)
 			}
 			fs := scn
@@ -480,8 +482,8 @@ func (d *Driver) RunFamily(fam string, runs int) {
 		// already persisted segment that receives deletes: the in-memory merge and
 		// its equivalent snapshot, with crash images
 		for i := 0; i < runs; i++ {
-			scn := Scenario{Name: "memmerge", Ids: allIds, RootObs: true, Images: i%2 == 0, CloseLast: r.Intn(2) == 0}
-			scn.Opts = ctl.Opts{Path: "FS", Unsafe: r.Intn(2) == 0, SegVersion: 1 + r.Intn(2), KeepN: 1 + r.Intn(2),
+			scn := Scenario{Name: "memmerge", Ids: allIds, RootObs: true, Images: i%2 == 0, CloseLast: r.Intn(2) == 0, MergeWindow: r.Intn(3)}
+			scn.Opts = ctl.Opts{Path: "FS", Unsafe: r.Intn(4) > 0, SegVersion: 1 + r.Intn(2), KeepN: 1 + r.Intn(2),
 				MinMemMerge: 2, Merge: []string{"none", "none", "eager2"}[r.Intn(3)]}
 			first := BatchSpec{Ops: []ctl.Op{{Kind: "upd", ID: "a"}, {Kind: "upd", ID: "b"}, {Kind: "upd", ID: "c"}}}
 			nc := 2 + r.Intn(2)
@@ -490,13 +492,13 @@ func (d *Driver) RunFamily(fam string, runs int) {
 				if c == 0 {
 					bs = append(bs, first)
 				}
-				for b := 0; b < 1+r.Intn(2); b++ {
+				for b := 0; b < 2+r.Intn(3); b++ {
 					bs = append(bs, BatchSpec{Ops: biasedOps(r, allIds, []string{"a", "b", "c"}), CB: r.Intn(3) == 0})
 				}
 				scn.Clients = append(scn.Clients, bs)
 			}
 			ps := NewPrioSched(r.Int63(), 3, 150)
-			ps.LowProc, ps.LowFrom, ps.LowTo = "pers", 8+r.Intn(25), 60+r.Intn(60)
+			ps.LowProc, ps.LowFrom, ps.LowTo = "pers", 8+r.Intn(20), 30+r.Intn(30)
 			d.simple(scn, ps, nil)
 		}
 	case "crash2":
@@ -566,6 +568,10 @@ func (d *Driver) RunFamily(fam string, runs int) {
 			scn.Name = "close"
 			scn.CloseLast = false
 			scn.Opts.Path = "FS"
+			if r.Intn(2) == 0 {
+				// the persister paces itself against the merger (its catch-up wait loop)
+				scn.Opts.NapUnderNumFiles = 1 + r.Intn(3)
+			}
 			scn.Opts.Unsafe = r.Intn(3) > 0
 			d.simple(scn, NewPrioSched(r.Int63(), 5, 100), nil)
 		}
